@@ -1,4 +1,5 @@
 """C20 — Autocorrelation helpers compute the documented normalised autocorrelation (partial: FFT numerics are runtime)."""
+from checks import big_scale
 LEAN_TARGETS = ["QmcProps.C20", "drv_c20"]
 BINS = ["c20"]
 
@@ -66,4 +67,5 @@ def main(ck):
         "sampling period >= 1; mapper returns rows of equal length; spin-product variables are in range",
     ]
     ck.extra_trusted += ["rustfft and f64 rounding of the FFT route (observed to 1e-9, not modelled)"]
+    big_scale.run(ck, "longrun.autocorr")   # large-scale regime (>65536 bonds/ops/slots, release semantics): model-free oracles of the property statements
     return ck.finish(RULE)
